@@ -32,8 +32,9 @@ var Packages = []string{"internal/multiplex", "internal/server", "internal/serve
 // net.Listen / net.ListenUDP -> simsync.HookListen / HookListenUDP,
 // &net.Dialer{...} -> simsync.HookDialer(&net.Dialer{...}) (the harness sees
 // the dialer the program built), log.Fatal* -> simsync.Fatal* (unwinds the
-// task instead of exiting the process).
-var Programs = map[string]string{"cmd/ck-client": "internal/verifmain/ckclient"}
+// task instead of exiting the process), server.Serve -> simsync.HookServe (the
+// harness learns the State that ck-server's main() built before serving).
+var Programs = map[string]string{"cmd/ck-client": "internal/verifmain/ckclient", "cmd/ck-server": "internal/verifmain/ckserver"}
 
 type Stats struct {
 	Files     int
@@ -243,6 +244,9 @@ func (in *inst) program(f *ast.File, asPkg string) {
 				in.st.ProgramHooks++
 			case isSel(n.Fun, "log", "Fatalf"):
 				n.Fun = sel("simsync", "Fatalf")
+				in.st.ProgramHooks++
+			case isSel(n.Fun, "server", "Serve"):
+				n.Fun = sel("simsync", "HookServe")
 				in.st.ProgramHooks++
 			}
 			if !isSel(n.Fun, "simsync", "HookDialer") {
